@@ -399,6 +399,41 @@ Theorem gen_osmlem_index_step :
              vdiv (em_data o) (vmaxc eps (em_A o x)); em_data o; em_sens o] (log ++ [em_one eps o x])).
 Proof. exact gen_em_step. Qed.
 Print Assumptions gen_osmlem_index_step.
+
+(* ---- other valuations of the configuration tests ---- *)
+(* projection=None: the generated landweber program without the projection statement *)
+Theorem gen_landweber_noproj_is_model :
+  forall (A : list R -> list R) (Dadj : list R -> list R -> list R) (omega : R) (junk : string -> list R)
+         (niter : nat) (x rhs : list R),
+  exists s, run_prog (lw_I A Dadj (fun v => v) omega junk) landweber_noproj_pre landweber_noproj_body niter
+              (mk_hst [("x", 0%nat); ("caller.x", 0%nat); ("rhs", 1%nat)] [x; rhs] []) = Some s
+    /\ deref s "caller.x" = Some (iter niter (landweber_step A Dadj (fun v => v) rhs omega) x)
+    /\ h_log s = trace (fun x => x) niter (landweber_step A Dadj (fun v => v) rhs omega) x.
+Proof. exact gen_lw_noproj_run. Qed.
+Print Assumptions gen_landweber_noproj_is_model.
+
+Theorem gen_variants :
+  (kaczmarz_noproj_outer = [OFor "i" kaczmarz_noproj_inner1; OStmt (Callback "x")]
+   /\ kaczmarz_cbinner_outer = [OFor "i" kaczmarz_cbinner_inner1]
+   /\ kaczmarz_cbinner_inner1 = (kaczmarz_inner1 ++ [Callback "x"])%list
+   /\ adupdates_cbinner_outer = [OFor "i" adupdates_cbinner_inner1; OFor "j" adupdates_cbinner_inner2]
+   /\ adupdates_cbinner_inner1 = adupdates_inner1
+   /\ adupdates_cbinner_inner2 = (adupdates_inner2 ++ [Callback "x"])%list)
+  /\ (forall (o : @kzop R) (junk : string -> list R) (x td t : list R) (log : list (list R)),
+        body_step (kz_I (fun v => v) o junk) kaczmarz_noproj_inner1 (mk_hst kz_env [x; td; kz_rhs o; t] log)
+        = Some (mk_hst (kz_env ++ [("tmp_ran", 3%nat)])%list
+                  [kz_one (fun v => v) o x; kz_Dadj o x (vsub (kz_A o x) (kz_rhs o)); kz_rhs o;
+                   vsub (kz_A o x) (kz_rhs o)] log))
+  /\ (forall (proj : list R -> list R) (o : @kzop R) (junk : string -> list R) (x td t : list R) (log : list (list R)),
+        option_map h_log (body_step (kz_I proj o junk) kaczmarz_cbinner_inner1 (mk_hst kz_env [x; td; kz_rhs o; t] log))
+        = Some (log ++ [kz_one proj o x])%list)
+  /\ (forall (stepsize : R) (o : @adop R) (junk : string -> list R) (x d t : list R) (log : list (list R)),
+        ad_inner_v o = None ->
+        option_map h_log (body_step (adup_I stepsize o junk) adupdates_cbinner_inner2
+          (mk_hst [("x", 0%nat); ("duals[j]", 1%nat); ("tmp_rans[L[j].range]", 2%nat)] [x; d; t] log))
+        = Some (log ++ [adup_x1 stepsize o x d])%list).
+Proof. exact (conj gen_variant_shapes (conj gen_kz_noproj_step (conj gen_kz_cbinner_step gen_adup_cbinner_step))). Qed.
+Print Assumptions gen_variants.
 Local Close Scope string_scope.
 
 (* ------------------------------------------------------------ non-vacuity *)
